@@ -188,35 +188,6 @@ Section Facts.
       + apply Tail. reflexivity.
   Qed.
 
-  Fixpoint tg_fixed_ok (st : store) (tg : list ws) : Prop :=
-    match tg with [] => True | w :: r => fixed_ok st w /\ tg_fixed_ok (master_ws st w) r end.
-
-  Lemma replay_sets_fixed tg : forall st, tg_fixed_ok st tg -> replay_sets false st tg = ROk (master_tg st tg).
-  Proof.
-    induction tg as [|w tg IH]; intros st H; [reflexivity|].
-    destruct H as [Hw Hr]. destruct (fixed_ws st w Hw) as (c & Ec & Ew).
-    cbn [Repl.replay_sets]. rewrite Ec, Ew. apply IH. exact Hr.
-  Qed.
-
-  Lemma replay_tg_fixed st tg : tg_fixed_ok st tg -> replay_tg st tg = ROk (master_tg st tg).
-  Proof.
-    destruct tg as [|w tg]; [reflexivity|]. intros H. unfold Repl.replay_tg.
-    destruct H as [Hw Hr]. pose proof Hw as (Hrt & _). rewrite Hrt.
-    change (RT_FIXED =? RT_VARIABLE) with false. apply replay_sets_fixed. split; assumption.
-  Qed.
-
-  Fixpoint run_fixed_ok (st : store) (tgs : list (list ws)) : Prop :=
-    match tgs with [] => True | tg :: r => tg_fixed_ok st tg /\ run_fixed_ok (master_tg st tg) r end.
-
-  (** every history of FIXED transaction groups: the replica's store IS the master's store *)
-  Theorem replica_fixed_converges tgs : forall st,
-    run_fixed_ok st tgs -> replica_run st tgs = ROk (master_run st tgs).
-  Proof.
-    induction tgs as [|tg tgs IH]; intros st H; [reflexivity|].
-    destruct H as [Ht Hr]. cbn [Repl.replica_run]. rewrite (replay_tg_fixed st tg Ht).
-    apply IH. exact Hr.
-  Qed.
-
   (** * VARIABLE write sets: the replica stores re-ticked records *)
   (** the replica's ticks depend on the master's only through the nanosecond part *)
   Lemma retick_forgets_seconds epoch ipd idx ipd_b r1 r2 :
@@ -346,56 +317,39 @@ Section Facts.
         destruct (map mk cks) as [|r0 rr] eqn:Emk; [contradiction|]. exact T.
   Qed.
 
-  Fixpoint tg_var_ok (st : store) (tg : list ws) : Prop :=
-    match tg with [] => True | w :: r => var_ok st w /\ tg_var_ok (master_ws st (retick_ws w)) r end.
+  (** * Histories: every write set replayed with its own record type; a TG may mix FIXED and VARIABLE sets *)
+  Definition ws_ok (st : store) (w : ws) : Prop := fixed_ok st w \/ var_ok st w.
 
-  Lemma replay_sets_var tg : forall st,
-    tg_var_ok st tg -> replay_sets true st tg = ROk (master_tg st (map retick_ws tg)).
-  Proof.
-    induction tg as [|w tg IH]; intros st H; [reflexivity|].
-    destruct H as [Hw Hr]. destruct (var_ws st w Hw) as (c & Ec & Ew).
-    cbn [Repl.replay_sets map]. rewrite Ec, Ew. apply IH. exact Hr.
-  Qed.
-
-  Lemma replay_tg_var st tg : tg_var_ok st tg -> replay_tg st tg = ROk (master_tg st (map retick_ws tg)).
-  Proof.
-    destruct tg as [|w tg]; [reflexivity|]. intros H. unfold Repl.replay_tg.
-    destruct H as [Hw Hr]. pose proof Hw as (Hrt & _). rewrite Hrt, Z.eqb_refl.
-    apply replay_sets_var. split; assumption.
-  Qed.
-
-  (** * Histories of homogeneous transaction groups (each one all FIXED or all VARIABLE) *)
-  Definition tg_ok (st : store) (tg : list ws) : Prop := tg_fixed_ok st tg \/ tg_var_ok st tg.
-
-  Lemma retick_fixed tg : forall st, tg_fixed_ok st tg -> map retick tg = tg.
-  Proof.
-    induction tg as [|w tg IH]; intros st H; [reflexivity|]. destruct H as [(Hrt & _) Hr].
-    cbn [map]. unfold Repl.retick at 1. rewrite Hrt. change (RT_FIXED =? RT_VARIABLE) with false. f_equal. apply (IH _ Hr).
-  Qed.
-
-  Lemma retick_var tg : forall st, tg_var_ok st tg -> map retick tg = map retick_ws tg.
-  Proof.
-    induction tg as [|w tg IH]; intros st H; [reflexivity|]. destruct H as [(Hrt & _) Hr].
-    cbn [map]. unfold Repl.retick at 1. rewrite Hrt, Z.eqb_refl. f_equal. apply (IH _ Hr).
-  Qed.
-
-  Lemma replay_tg_ok st tg : tg_ok st tg -> replay_tg st tg = ROk (master_tg st (map retick tg)).
+  Lemma replay_ws st w : ws_ok st w ->
+    exists c, wtset_to_cs w = COk c /\ write_csm (ws_rt w =? RT_VARIABLE) st c = ROk (master_ws st (retick w)).
   Proof.
     intros [H|H].
-    - rewrite (retick_fixed tg st H). apply replay_tg_fixed. exact H.
-    - rewrite (retick_var tg st H). apply replay_tg_var. exact H.
+    - pose proof H as (Hrt & _). destruct (fixed_ws st w H) as (c & Ec & Ew). exists c. split; [exact Ec|].
+      unfold Repl.retick. rewrite Hrt. change (RT_FIXED =? RT_VARIABLE) with false. exact Ew.
+    - pose proof H as (Hrt & _). destruct (var_ws st w H) as (c & Ec & Ew). exists c. split; [exact Ec|].
+      unfold Repl.retick. rewrite Hrt, Z.eqb_refl. exact Ew.
+  Qed.
+
+  Fixpoint tg_ok (st : store) (tg : list ws) : Prop :=
+    match tg with [] => True | w :: r => ws_ok st w /\ tg_ok (master_ws st (retick w)) r end.
+
+  Lemma replay_tg_ok tg : forall st, tg_ok st tg -> replay_tg st tg = ROk (master_tg st (map retick tg)).
+  Proof.
+    unfold Repl.replay_tg. induction tg as [|w tg IH]; intros st H; [reflexivity|].
+    destruct H as [Hw Hr]. destruct (replay_ws st w Hw) as (c & Ec & Ew).
+    cbn [Repl.replay_sets map]. rewrite Ec, Ew. apply IH. exact Hr.
   Qed.
 
   Fixpoint run_ok (st : store) (tgs : list (list ws)) : Prop :=
     match tgs with [] => True | tg :: r => tg_ok st tg /\ run_ok (master_tg st (map retick tg)) r end.
 
-  (** every history of homogeneous TGs: the replica replays all of it, and its store is exactly the store
+  (** every history of well-formed TGs: the replica replays all of it, and its store is exactly the store
       of a master that received the same history with every VARIABLE record re-ticked *)
   Theorem replica_characterised tgs : forall st,
     run_ok st tgs -> replica_run st tgs = ROk (master_run st (map (map retick) tgs)).
   Proof.
     induction tgs as [|tg tgs IH]; intros st H; [reflexivity|].
-    destruct H as [Ht Hr]. cbn [Repl.replica_run map]. rewrite (replay_tg_ok st tg Ht).
+    destruct H as [Ht Hr]. cbn [Repl.replica_run map]. rewrite (replay_tg_ok tg st Ht).
     unfold master_run. cbn [fold_left]. apply IH. exact Hr.
   Qed.
 
@@ -452,31 +406,18 @@ Section Facts.
     split; [apply idx_okb_spec; assumption|]. split; [apply nanos_okb_spec; assumption | apply bucket_fitsb_spec; assumption].
   Qed.
 
-  Lemma tg_fixed_okb_spec tg : forall st, tg_fixed_okb st tg = true -> tg_fixed_ok st tg.
+  Lemma tg_okb_spec tg : forall st, tg_okb get_ticks time_from_ticks st tg = true -> tg_ok st tg.
   Proof.
     induction tg as [|w tg IH]; intros st H; [exact I|]. cbn in H. apply andb_prop in H as [H1 H2].
-    split; [apply fixed_okb_spec; exact H1 | apply IH; exact H2].
-  Qed.
-
-  Lemma tg_var_okb_spec tg : forall st, tg_var_okb get_ticks time_from_ticks st tg = true -> tg_var_ok st tg.
-  Proof.
-    induction tg as [|w tg IH]; intros st H; [exact I|]. cbn in H. apply andb_prop in H as [H1 H2].
-    split; [apply var_okb_spec; exact H1 | apply IH; exact H2].
+    split; [|apply IH; exact H2]. unfold ws_okb in H1. apply orb_prop in H1 as [H1|H1].
+    - left. apply fixed_okb_spec. exact H1.
+    - right. apply var_okb_spec. exact H1.
   Qed.
 
   Lemma run_okb_spec tgs : forall st, run_okb get_ticks time_from_ticks st tgs = true -> run_ok st tgs.
   Proof.
     induction tgs as [|tg tgs IH]; intros st H; [exact I|]. cbn in H. apply andb_prop in H as [H1 H2].
-    split; [|apply IH; exact H2]. unfold tg_okb in H1. apply orb_prop in H1 as [H1|H1].
-    - left. apply tg_fixed_okb_spec. exact H1.
-    - right. apply tg_var_okb_spec. exact H1.
-  Qed.
-
-  (** a history of FIXED transaction groups only: re-ticking changes nothing *)
-  Lemma run_fixed_retick tgs : forall st, run_fixed_ok st tgs -> map (map retick) tgs = tgs.
-  Proof.
-    induction tgs as [|tg tgs IH]; intros st H; [reflexivity|]. destruct H as [H1 H2].
-    cbn [map]. rewrite (retick_fixed tg st H1). f_equal. apply (IH _ H2).
+    split; [apply tg_okb_spec; exact H1 | apply IH; exact H2].
   Qed.
 End Facts.
 
